@@ -19,6 +19,7 @@ import (
 	psql "github.com/transparency-dev/witness/internal/persistence/sql"
 	"github.com/transparency-dev/witness/internal/witness"
 	"github.com/transparency-dev/witness/monitoring"
+	"github.com/transparency-dev/witness/verifharness/internal/ref"
 	"github.com/transparency-dev/witness/verifharness/internal/world"
 	"golang.org/x/mod/sumdb/note"
 	"google.golang.org/grpc/codes"
@@ -195,6 +196,27 @@ func newWitnessWithout(w *world.World, p persistence.LogStatePersistence, name s
 	}
 	if l, ok := w.Logs[name]; ok {
 		delete(kl, l.ID)
+	}
+	return witness.New(witness.Opts{Persistence: p, Signers: signers, KnownLogs: kl})
+}
+
+// newWitnessRekeyed is newWitness with one log's public key REPLACED in the configuration (same origin, same key name, other key material:
+// the key the "unknownkey" request class signs with half of the time).
+func newWitnessRekeyed(w *world.World, p persistence.LogStatePersistence, name string) (*witness.Witness, error) {
+	signers, _, err := witnessSigners(w)
+	if err != nil {
+		return nil, err
+	}
+	kl, err := knownLogs(w)
+	if err != nil {
+		return nil, err
+	}
+	if l, ok := w.Logs[name]; ok {
+		v, err := f_note.NewVerifier(ref.NewKey(l.Key.Name, "impostor").VKey())
+		if err != nil {
+			return nil, err
+		}
+		kl[l.ID] = witness.LogInfo{SigV: v, Origin: l.Origin, Hasher: rfc6962.DefaultHasher}
 	}
 	return witness.New(witness.Opts{Persistence: p, Signers: signers, KnownLogs: kl})
 }
